@@ -300,9 +300,13 @@ func parentsOf(i *gedcom.IndividualNode) (out gedcom.IndividualNodes) {
 	return uniq(out)
 }
 
-func genCase(rt *rapid.T) matchCase {
+func genCase(rt *rapid.T) matchCase { return genCaseBig(rt, 60) }
+
+// genCaseBig: one pair in big has 20..40 people per side (0: never; the race-detector children and the
+// command-line route, which are ten times slower per comparison, stay small)
+func genCaseBig(rt *rapid.T, big int) matchCase {
 	base := rapid.SampledFrom([]int{1850, 1900}).Draw(rt, "base")
-	o := gen.GraphOpts{MaxPeople: 6, MaxFamilies: 3, YearLo: base, YearHi: base + rapid.SampledFrom([]int{3, 40}).Draw(rt, "span"), UIDs: true, WildDates: true, Big: 50, BigLo: 20, BigHi: 45}
+	o := gen.GraphOpts{MaxPeople: 6, MaxFamilies: 3, YearLo: base, YearHi: base + rapid.SampledFrom([]int{3, 40}).Draw(rt, "span"), UIDs: true, WildDates: true, Big: big, BigLo: 20, BigHi: 40}
 	c := matchCase{Left: gen.Graph(o).Draw(rt, "left")}
 	switch rapid.IntRange(0, 3).Draw(rt, "rightKind") {
 	case 0:
@@ -362,7 +366,7 @@ func genCase(rt *rapid.T) matchCase {
 
 func TestCheckMatching(t *testing.T) {
 	s := harness.NewSub("matching-validity-and-differential",
-		"pairs of individual lists from random family graphs (<= 6 people each; right side: disjoint pointers, same pointers, or an edited copy - renamed people, dropped identifiers, renumbered pointers, an identical twin), unique identifiers from a small pool (shared, duplicated, malformed) x MinimumWeightedSimilarity and PreferPointerAbove from {0,0.5,default,0.9,1} x Jobs {0,1,2,3,8,16}: every individual exactly once per side, no empty result, every pair justified (full weighted similarity >= threshold, shared identifier, or trusted pointer), and - when no two candidate pairs tie and identifiers/pointers are not duplicated - the same pairs as the sequential run; after every comparison the spouses and the parents of every matched pair are compared with the SAME options value, as html/individual_compare.go does for 'gedcom diff', and those results are valid matchings too; non-trivial = both sides >= 2 people and a two-sided result")
+		"pairs of individual lists from random family graphs (<= 6 people each, one pair in 60 with 20..40; right side: disjoint pointers, same pointers, or an edited copy - renamed people, dropped identifiers, renumbered pointers, an identical twin), unique identifiers from a small pool (shared, duplicated, malformed) x MinimumWeightedSimilarity and PreferPointerAbove from {0,0.5,default,0.9,1} x Jobs {0,1,2,3,8,16}: every individual exactly once per side, no empty result, every pair justified (full weighted similarity >= threshold, shared identifier, or trusted pointer), and - when no two candidate pairs tie and identifiers/pointers are not duplicated - the same pairs as the sequential run; after every comparison the spouses and the parents of every matched pair are compared with the SAME options value, as html/individual_compare.go does for 'gedcom diff', and those results are valid matchings too; non-trivial = both sides >= 2 people and a two-sided result")
 	s.Rapid(t, harness.Share(harness.Pick(2500, 60000)), 110, func(rt *rapid.T) {
 		c := genCase(rt)
 		c.Jobs = []int{0, 1, 2, 3, 8, 16}
@@ -780,7 +784,7 @@ func TestCheckRace(t *testing.T) {
 		s := harness.NewSub(variant.name,
 			"the same generated cases run in a -race build of the check (one child process per case and GOMAXPROCS value in {1,2,16}; Jobs {2,3,8,16} x repetitions); warm = every lazily cached accessor was called once sequentially before Compare, cold = the property as stated; any 'WARNING: DATA RACE' is a failure classified by its two innermost gedcom functions; the validity oracle runs in the child too; non-trivial = both sides >= 2 people")
 		s.Rapid(t, harness.Share(harness.Pick(48, 1500)), 111+vi, func(rt *rapid.T) {
-			c := genCase(rt)
+			c := genCaseBig(rt, 0)
 			c.Jobs = []int{2, 3, 8, 16}
 			c.Warm = variant.warm
 			c.Reps = harness.Pick(2, 6)
@@ -823,7 +827,7 @@ func TestCheckCLI(t *testing.T) {
 	s := harness.NewSub("cli-diff-jobs-race",
 		"'gedcom diff -jobs N' (N in {1,2,8}) from a -race build on generated file pairs: exit status 0, no 'DATA RACE' / panic on stderr, and every individual of both files appears in the report (its unique marker name occurs); non-trivial = both files >= 2 people")
 	s.Rapid(t, harness.Share(harness.Pick(24, 800)), 113, func(rt *rapid.T) {
-		c := genCase(rt)
+		c := genCaseBig(rt, 0)
 		jobs := rapid.SampledFrom([]int{1, 2, 8}).Draw(rt, "jobs")
 		// unique marker names so that presence in the report can be checked
 		for k, p := range c.Left.People {
